@@ -389,17 +389,17 @@ Definition with_flags (vrf xp late : bool) : variant :=
   {| v_validate := true; v_replace := true; v_dedup := true; v_rollback := true; v_vrfkey := vrf; v_xpool := xp;
      v_late := late; v_cfgcheck := true; v_degrel := true |}.
 
-(* Before 53e73c2 the component passed inside VRF 0 for every session: subscriber 5 (VRF 0, 10.0.0.5) and subscriber 65541
-   (VRF 1, 10.0.0.5) are told the same block; when the first leaves, the second is left with a mapping the pool has
+(* Before 53e73c2 the component passed inside VRF 0 for every session: subscriber 5 (VRF 0, 0.0.0.5) and subscriber 4294967301
+   (VRF 1, 0.0.0.5) are told the same block; when the first leaves, the second is left with a mapping the pool has
    already freed. *)
 Theorem C15_vrf_sharing_refuted :
   let v := with_flags false true true in
   let c := effective ex_raw1 in
   let s0 := comp_init (pool_of v ex_raw1) in
   exists b, snd (cstep v c s0 (CActivate 1 5 true None)) = RBlock true b /\
-            snd (cstep v c (fst (cstep v c s0 (CActivate 1 5 true None))) (CActivate 2 65541 true None)) = RBlock false b /\
-            let s := crun v c s0 [CActivate 1 5 true None; CActivate 2 65541 true None; CRelease 1 5 []] in
-            cp_sess s = [2] /\ blocks_of (cp_pool s) 5 = [] /\ blocks_of (cp_pool s) 65541 = [].
+            snd (cstep v c (fst (cstep v c s0 (CActivate 1 5 true None))) (CActivate 2 4294967301 true None)) = RBlock false b /\
+            let s := crun v c s0 [CActivate 1 5 true None; CActivate 2 4294967301 true None; CRelease 1 5 []] in
+            cp_sess s = [2] /\ blocks_of (cp_pool s) 5 = [] /\ blocks_of (cp_pool s) 4294967301 = [].
 Proof. eexists. vm_compute. repeat split. Qed.
 Print Assumptions C15_vrf_sharing_refuted.
 
